@@ -215,6 +215,20 @@ CHECKS["C13"] = dict(
     technique="Coq proof (non-interference of read-only-shared scripts by induction over schedules) on premises regenerated from the source + deterministic thread-schedule exploration and request histories on the implementation",
     design="7/C13", level="proof")
 
+CHECKS["C19"] = dict(
+    text="Machine-checked proof (Coq): for every call tree (any nesting depth and argument count) the text built by the client's "
+         "function proxy is read back by the server's FUNCTION regexp / top-level-comma tokenizer / recursive parse as exactly that "
+         "tree; a request without an opening parenthesis is never intercepted and a relational clause on a variable is never taken "
+         "for a call; mean() removes exactly the axis from shape / dims / maps; bounds() keeps exactly the records inside every closed "
+         "interval (min = max meaning equality), in order. The models are compared with pydap (proxy ids, call trees seen by a spy "
+         "function, interception, bounds rows, mean dims); responses with and without the middleware are compared byte for byte; mean "
+         "results are compared with exact rational means, bounds results with a reference filter on numpy and lazy sequences; proxy "
+         "results with raw requests.",
+    note=TB + "numpy.mean and float comparison are outside the model (oracle to 1e-9 relative). bounds(): integer-valued cells, T axis not "
+              "exercised. Call arguments without comma / parenthesis.",
+    technique="Coq proof (printer/parser inverse for nested call expressions with a depth-counting tokenizer; list lemmas for axis removal and filter composition) + vm_compute correspondence via spy functions + exact-rational oracle for mean",
+    design="7/C19")
+
 NOT_YET = {
 }
 
